@@ -593,6 +593,11 @@ def minimize_lbfgsb(
             else:
                 f0, f0_old, grad, G = update_fun_def(x, f0, f0_old, grad, X, G)
 
+                # We must check if the updated G satisfy the strong wolfe condition.
+                # This comes before the stop criteria so that a result returned from
+                # here never carries unfiltered pairs.
+                X, G = make_X_and_G_respect_strong_wolfe(X, G, eps_SY, logger=logger)
+
                 # Check stop criterion: minimum relative change in the
                 # objective function
                 if is_f0_min_change_reached(f0, f0_old, ftol, istate):
@@ -601,9 +606,6 @@ def minimize_lbfgsb(
                 # Check stop criterion: minimum objective function value
                 elif is_f0_target_reached(f0 / sf.scaling_factor, _ftarget, istate):
                     break  # the while loop
-
-                # We must check if the updated G satisfy the strong wolfe condition
-                X, G = make_X_and_G_respect_strong_wolfe(X, G, eps_SY, logger=logger)
 
             mats = update_lbfgs_matrices(
                 x.copy(),  # copy otherwise x might be changed in X when updated
